@@ -32,6 +32,8 @@ LABVARS = ("uns-grpdup", "uns-grpuniq", "uns-nogrp", "sorted-grpdup", "notaxa")
 # phased genotypes of up to 4 taxa x 3 markers: allele counts [1,2,0] [2,0,1] [0,0,2] [1,1,1]
 PHASE0 = [[0, 1, 0], [1, 0, 1], [0, 0, 1], [1, 0, 0]]
 PHASE1 = [[1, 1, 0], [1, 0, 0], [0, 0, 1], [0, 1, 1]]
+PHASE2 = [[1, 0, 0], [0, 0, 1], [0, 1, 1], [0, 1, 0]]      # tetraploid dosages: [2,2,0] [2,0,2] [0,1,4] [1,2,1]
+PHASE3 = [[0, 0, 0], [0, 0, 0], [0, 0, 1], [0, 0, 0]]
 NMARK = 3
 
 U_A = [[[1.0, -0.5], [2.0, 0.25], [-0.75, 1.5]],
@@ -51,9 +53,9 @@ VAR_LEVELS = (0.0, 1.0, 4.0)
 class Pop:
     """n taxa; labels per variant.  `tie=True` gives taxon 1 the genotype of taxon 0."""
 
-    def __init__(self, n, labvar, seed=0):
+    def __init__(self, n, labvar, seed=0, ploidy=2):
         s = seed % 3
-        self.n, self.labvar, self.seed = n, labvar, seed
+        self.n, self.labvar, self.seed, self.ploidy = n, labvar, seed, ploidy
         names = NAMES[s][:n]
         if labvar == "sorted-grpdup":
             names = sorted(names)
@@ -68,46 +70,47 @@ class Pop:
             self.grp = None
         tie = (s == 2)
         src = [0 if (tie and i == 1) else i for i in range(n)]
-        self.ph0 = [list(PHASE0[k]) for k in src]
-        self.ph1 = [list(PHASE1[k]) for k in src]
-        self.count = [[a + b for a, b in zip(self.ph0[i], self.ph1[i])] for i in range(n)]
-        self.het = [[1 if c == 1 else 0 for c in self.count[i]] for i in range(n)]
+        self.ph = [[list(P[k]) for k in src] for P in (PHASE0, PHASE1, PHASE2, PHASE3)[:ploidy]]
+        self.recount()
+
+    # the two phases of a diploid (kept as names because most layers are diploid)
+    @property
+    def ph0(self):
+        return self.ph[0]
+
+    @property
+    def ph1(self):
+        return self.ph[1]
+
+    def recount(self):
+        """dosage = number of copies of the counted allele; heterozygous = 0 < dosage < ploidy."""
+        self.count = [[sum(P[i][k] for P in self.ph) for k in range(NMARK)] for i in range(self.n)]
+        self.het = [[1 if 0 < c < self.ploidy else 0 for c in self.count[i]] for i in range(self.n)]
 
     def permuted(self, order):
         """The taxa `order` (indices, possibly a subset) as a population of their own."""
         q = Pop.__new__(Pop)
-        q.n, q.labvar, q.seed = len(order), self.labvar, self.seed
+        q.n, q.labvar, q.seed, q.ploidy = len(order), self.labvar, self.seed, self.ploidy
         q.taxa = [self.taxa[i] for i in order]
         q.grp = None if self.grp is None else [self.grp[i] for i in order]
-        q.ph0 = [self.ph0[i] for i in order]
-        q.ph1 = [self.ph1[i] for i in order]
-        q.count = [self.count[i] for i in order]
-        q.het = [self.het[i] for i in order]
+        q.ph = [[list(P[i]) for i in order] for P in self.ph]
+        q.recount()
         return q
 
 
 def pop_copy(pop):
     q = Pop.__new__(Pop)
-    q.n, q.labvar, q.seed = pop.n, pop.labvar, pop.seed
+    q.n, q.labvar, q.seed, q.ploidy = pop.n, pop.labvar, pop.seed, pop.ploidy
     q.taxa = None if pop.taxa is None else list(pop.taxa)
     q.grp = None if pop.grp is None else list(pop.grp)
-    q.ph0 = [list(r) for r in pop.ph0]
-    q.ph1 = [list(r) for r in pop.ph1]
+    q.ph = [[list(r) for r in P] for P in pop.ph]
     q.recount()
     return q
 
 
-def _recount(self):
-    self.count = [[a + b for a, b in zip(self.ph0[i], self.ph1[i])] for i in range(self.n)]
-    self.het = [[1 if c == 1 else 0 for c in self.count[i]] for i in range(self.n)]
-
-
-Pop.recount = _recount
-
-
 def build_pgmat(pop):
     from pybrops.popgen.gmat.DensePhasedGenotypeMatrix import DensePhasedGenotypeMatrix
-    mat = numpy.array([pop.ph0, pop.ph1], dtype="int8")
+    mat = numpy.array(pop.ph, dtype="int8")            # (ploidy, n, p)
     return DensePhasedGenotypeMatrix(
         mat=mat,
         taxa=None if pop.taxa is None else numpy.array(pop.taxa, dtype=object),
@@ -559,3 +562,21 @@ def apply_op(op, st, seed):
 # ----------------------------------------------------------------------------
 # row-index alphabet for phenotype tables handed to estimate()
 INDEX_VARIANTS = ("range", "perm", "subset", "str", "dup")
+
+
+# ----------------------------------------------------------------------------
+# protocol copies: a copy must run the same trial as the original (it shares / continues the generator)
+COPY_VARIANTS = ("copy.copy", "copy.deepcopy", ".copy()", ".deepcopy()")
+
+
+def make_copy(pt, how):
+    import copy
+    if how == "copy.copy":
+        return copy.copy(pt)
+    if how == "copy.deepcopy":
+        return copy.deepcopy(pt)
+    if how == ".copy()":
+        return pt.copy()
+    if how == ".deepcopy()":
+        return pt.deepcopy()
+    raise ValueError(how)
